@@ -400,6 +400,26 @@ pub fn classify_c12(cx: &Ctx) -> &'static str {
             if touches_pk && tab.fks.iter().any(|f| f.parent == *t) {
                 return "self-ref-pk-update";
             }
+            // the key is assigned but does not change, and the children were touched all the same
+            if touches_pk && cx.orphans.is_empty() {
+                if let (Some(pk), Stmt::Update { wh, .. }) = (&tab.pk, cx.stmt) {
+                    let unchanged_referenced = rows_of(cx.pre, *t).iter().filter(|r| selects(wh, r)).any(|r| {
+                        let same = asg.iter().filter(|(c, _)| pk.contains(c)).all(|(c, e)| match e {
+                            Expr::Lit(v) => *v == r[*c],
+                            Expr::Col(c2) => r[*c2] == r[*c],
+                            Expr::Add(c2, k) => r[*c2].and_then(|x| x.checked_add(*k)) == r[*c],
+                            Expr::Default => tab.cols[*c].default == r[*c],
+                        });
+                        same && tabs.iter().filter(|c| !c.dropped && c.id != *t).any(|c| {
+                            c.fks.iter().any(|f| f.parent == *t && f.onupd != Act::NoAction
+                                && rows_of(cx.pre, c.id).iter().any(|x| proj(&f.cols, x) == proj(pk, r)))
+                        })
+                    });
+                    if unchanged_referenced {
+                        return "update-unchanged-key-fires-action";
+                    }
+                }
+            }
             if touches_pk {
                 for c in tabs.iter().filter(|c| !c.dropped) {
                     let to_t: Vec<&Fk> = c.fks.iter().filter(|f| f.parent == *t).collect();
